@@ -1,5 +1,8 @@
 #!/usr/bin/env python3
-"""Selftest of zwv/forest.py:  python3 /verif/zwv/forest_selftest.py [-v] [seed] [count]
+"""Selftest of zwv/forest.py:
+    python3 -m zwv.forest_selftest [-v] [--seed N] [--count N]      (or: [-v] [seed] [count])
+    python3 -m zwv.forest_selftest --help
+The dwgrep binary is $DWGREP if set, else the newest /verif/build/impl-plain-*/dwgrep.
 
 For `count` random forests (default 50) drawn from `seed` (default 0):
   * internal consistency of describe() (offsets, references, acyclicity, JSON);
@@ -13,7 +16,14 @@ For `count` random forests (default 50) drawn from `seed` (default 0):
         abbreviation code + children flag, NULL entries, attribute names + forms, and
         the values of string / reference / integer / flag / address forms;
       - readelf --debug-dump=info must not complain;
-    all compared with describe().
+    all compared with describe();
+  * location expressions and location lists (a part of the forests is generated with
+    rich_ops=0.6, loclists=0.5): the block bytes are decoded again here, independently of
+    the generator, and compared with "ops2"; .debug_loc is parsed and compared with the
+    location list values; dwgrep's view of every location attribute (address range of each
+    element, number of operations, offset and opcode of each operation) is compared with
+    "ops2"; so are the lists printed by readelf --debug-dump=loc and llvm-dwarfdump-14
+    --debug-loc (offsets and absolute address ranges).
 Prints a summary including feature coverage; exit status 1 on any disagreement.
 """
 import concurrent.futures
@@ -118,12 +128,15 @@ def check_internal(fo, desc, err):
                     k = [s["offset"] for s in sibs].index(d["offset"])
                     if k + 1 >= len(sibs) or sibs[k + 1]["offset"] != v["ref"]:
                         err("DIE %#x: DW_AT_sibling is not the next sibling" % d["offset"])
+                if isinstance(v, dict) and ("ops2" in v or "loclist" in v):
+                    check_location_value(fo, desc, idx, u, d, a, err)
         if max(depth_of(u["root"]), 0) > desc["opts"]["max_depth"]:
             err("unit %d deeper than max_depth" % ui)
         if len(preorder(u["root"])) > desc["opts"]["max_dies"]:
             err("unit %d has more than max_dies DIEs" % ui)
     if prev_end != len(info):
         err(".debug_info has trailing bytes")
+    check_debug_loc(fo, desc, idx, err)
     # abbreviation table bytes
     ab = fo.debug_abbrev
     for t in desc["abbrevs"]:
@@ -176,6 +189,213 @@ def check_internal(fo, desc, err):
     if longest["chain"] is not None and longest["chain"] > desc["opts"]["max_chain"]:
         err("specification/abstract_origin chain too long")
     return edges, longest
+
+
+# location operations by operand layout, by number (kept apart from the generator's tables)
+OPS_NOARG = set([0x06, 0x12, 0x13, 0x14, 0x16, 0x17, 0x19, 0x1a, 0x1b, 0x1c, 0x1d, 0x1e, 0x1f,
+                 0x20, 0x21, 0x22, 0x24, 0x25, 0x26, 0x27, 0x29, 0x2a, 0x2b, 0x2c, 0x2d, 0x2e,
+                 0x96, 0x97, 0x9b, 0x9c, 0x9f, 0xe0]) | set(range(0x30, 0x70))
+OPS_FIXED_U = {0x08: 1, 0x0a: 2, 0x0c: 4, 0x0e: 8, 0x15: 1, 0x94: 1, 0x95: 1}
+OPS_FIXED_S = {0x09: 1, 0x0b: 2, 0x0d: 4, 0x0f: 8}
+OPS_ULEB = (0x10, 0x23, 0x90, 0x93)
+OPS_SLEB = set([0x11, 0x91]) | set(range(0x70, 0x90))
+OPS_TYPED = (0xa0, 0xf2, 0xa4, 0xf4, 0xa5, 0xf5, 0xa6, 0xf6, 0xa8, 0xf7, 0xa9, 0xf9, 0xfa)
+
+
+def decode_expr(b, unit):
+    """Decode expression bytes into the "ops2" shape; `unit` is the unit description."""
+    b = bytes(b)
+    out, pos = [], 0
+    while pos < len(b):
+        off, op = pos, b[pos]
+        pos += 1
+        opnds = []
+
+        def fixed(n, key, signed=False):
+            nonlocal pos
+            opnds.append({key: int.from_bytes(b[pos:pos + n], "little", signed=signed)})
+            if pos + n > len(b):
+                raise ValueError("operand runs off the end")
+            pos += n
+
+        def leb(key, reader=read_uleb):
+            nonlocal pos
+            v, pos = reader(b, pos)
+            opnds.append({key: v})
+            return v
+
+        def block(n):
+            nonlocal pos
+            if pos + n > len(b):
+                raise ValueError("block runs off the end")
+            pos += n
+            return list(b[pos - n:pos])
+        if op in OPS_NOARG:
+            pass
+        elif op in OPS_FIXED_U:
+            fixed(OPS_FIXED_U[op], "u")
+        elif op in OPS_FIXED_S:
+            fixed(OPS_FIXED_S[op], "s", True)
+        elif op in OPS_ULEB:
+            leb("u")
+        elif op in OPS_SLEB:
+            leb("s", read_sleb)
+        elif op == 0x92:                            # bregx
+            leb("u")
+            leb("s", read_sleb)
+        elif op == 0x9d:                            # bit_piece
+            leb("u")
+            leb("u")
+        elif op == 0x03:
+            fixed(8, "addr")
+        elif op == 0x9e:                            # implicit_value
+            n, pos = read_uleb(b, pos)
+            opnds.append({"block": block(n)})
+        elif op in (0xa3, 0xf3):                    # entry_value
+            n, pos = read_uleb(b, pos)
+            opnds.append({"expr": decode_expr(block(n), unit)})
+        elif op in (0xa0, 0xf2):                    # implicit_pointer
+            fixed(8 if unit["version"] == 2 else 4, "die")
+            leb("s", read_sleb)
+        elif op in (0xa4, 0xf4):                    # const_type
+            opnds.append({"die": unit["offset"] + read_uleb(b, pos)[0]})
+            _, pos = read_uleb(b, pos)
+            n = b[pos]
+            pos += 1
+            opnds.append({"block": block(n)})
+        elif op in (0xa5, 0xf5):                    # regval_type
+            leb("u")
+            leb("curel")
+        elif op in (0xa6, 0xf6):                    # deref_type
+            fixed(1, "u")
+            leb("curel")
+        elif op in (0xa8, 0xf7, 0xa9, 0xf9):        # convert, reinterpret
+            leb("curel")
+        elif op == 0xfa:                            # GNU_parameter_ref
+            fixed(4, "curel")
+        else:
+            raise ValueError("opcode %#x" % op)
+        out.append({"offset": off, "op": op, "operands": opnds})
+    return out
+
+
+def all_ops2(ops2):
+    """The operations of an "ops2" list and of the expressions nested in it."""
+    for o in ops2:
+        yield o
+        for x in o["operands"]:
+            if "expr" in x:
+                for n in all_ops2(x["expr"]):
+                    yield n
+
+
+def location_exprs(v):
+    """The expression descriptions in a location attribute value (one, or one per entry)."""
+    return v["entries"] if "loclist" in v else [v]
+
+
+def check_location_value(fo, desc, idx, u, d, a, err):
+    v = a["value"]
+    where = "DIE %#x %s" % (d["offset"], DW_AT.name(a["name"]))
+    if "loclist" in v:
+        if u["version"] > 4:
+            err("%s: location list in a DWARF %d unit" % (where, u["version"]))
+        if a["form"] != (F["sec_offset"] if u["version"] == 4 else F["data4"]):
+            err("%s: location list form %s in a DWARF %d unit" % (
+                where, DW_FORM.name(a["form"]), u["version"]))
+        if not 1 <= len(v["entries"]) <= 4:
+            err("%s: %d location list entries" % (where, len(v["entries"])))
+        if d["tag"] not in (DW_TAG["variable"], DW_TAG["formal_parameter"]) \
+                or a["name"] != DW_AT["location"]:
+            err("%s: location list in an unexpected place" % where)
+    elif a["form"] not in (F["block1"], F["exprloc"]):
+        err("%s: expression in form %s" % (where, DW_FORM.name(a["form"])))
+    for e in location_exprs(v):
+        if "loclist" in v and not 0 <= e["start"] < e["end"] <= FO.M64:
+            err("%s: entry range %#x..%#x" % (where, e["start"], e["end"]))
+        try:
+            dec = decode_expr(e["block"], u)
+        except (ValueError, IndexError) as x:
+            err("%s: block does not decode: %s" % (where, x))
+            continue
+        if dec != e["ops2"]:
+            err("%s: block decodes to %r, described as %r" % (where, dec, e["ops2"]))
+        if [o[0] for o in e["ops"]] != [o["op"] for o in e["ops2"]]:
+            err("%s: ops and ops2 disagree" % where)
+        if a["form"] == F["block1"] and len(e["block"]) > 255:
+            err("%s: block1 longer than 255 bytes" % where)
+        for o in all_ops2(e["ops2"]):
+            if o["op"] in (0x28, 0x2f):
+                err("%s: skip/bra generated" % where)
+            for x in o["operands"]:
+                tgt = None
+                if ("u" in x and not 0 <= x["u"] <= FO.M64) or \
+                        ("s" in x and not -(1 << 63) <= x["s"] < (1 << 63)) or \
+                        ("addr" in x and not 0 <= x["addr"] <= FO.M64):
+                    err("%s: op %#x operand %r out of range" % (where, o["op"], x))
+                if "die" in x:
+                    tgt = x["die"]
+                elif "curel" in x:
+                    if x["curel"] == 0 and o["op"] in (0xa8, 0xf7, 0xa9, 0xf9):
+                        continue
+                    tgt = u["offset"] + x["curel"]
+                else:
+                    continue
+                if tgt not in idx:
+                    err("%s: op %#x refers to %#x, not a DIE" % (where, o["op"], tgt))
+                    continue
+                local = u["offset"] <= tgt < u["end"]
+                if o["op"] not in (0xa0, 0xf2) and not local:
+                    err("%s: op %#x leaves the unit" % (where, o["op"]))
+                if o["op"] not in (0xa0, 0xf2, 0xfa) and idx[tgt]["tag"] != DW_TAG["base_type"]:
+                    err("%s: op %#x refers to a %s" % (where, o["op"],
+                                                        DW_TAG.name(idx[tgt]["tag"])))
+
+
+def check_debug_loc(fo, desc, idx, err):
+    """.debug_loc is exactly the described lists, one after the other, in attribute order."""
+    loc = fo.debug_loc
+    if desc["sizes"].get(".debug_loc", 0) != len(loc) or (".debug_loc" in desc["sizes"]) != bool(loc):
+        err("sizes['.debug_loc'] wrong")
+    if (".debug_loc" in fo.sections()) != bool(loc):
+        err("sections() and .debug_loc disagree")
+    pos = 0
+    for u in desc["units"]:
+        for d in preorder(u["root"]):
+            for a in d["attrs"]:
+                v = a["value"]
+                if not (isinstance(v, dict) and "loclist" in v):
+                    continue
+                if v["loclist"] != pos:
+                    err("location list of DIE %#x at %#x, expected at %#x" % (
+                        d["offset"], v["loclist"], pos))
+                    pos = v["loclist"]
+                try:
+                    b0, b1 = int.from_bytes(loc[pos:pos + 8], "little"), \
+                        int.from_bytes(loc[pos + 8:pos + 16], "little")
+                    if b0 != FO.M64 or b1 != v.get("base", b1):
+                        err("location list %#x does not start with a base address entry" % pos)
+                    base = b1
+                    pos += 16
+                    got = []
+                    while True:
+                        s0 = int.from_bytes(loc[pos:pos + 8], "little")
+                        e0 = int.from_bytes(loc[pos + 8:pos + 16], "little")
+                        if pos + 16 > len(loc):
+                            raise ValueError("list runs off the section")
+                        pos += 16
+                        if (s0, e0) == (0, 0):
+                            break
+                        n = int.from_bytes(loc[pos:pos + 2], "little")
+                        got.append((base + s0, base + e0, list(loc[pos + 2:pos + 2 + n])))
+                        pos += 2 + n
+                    if got != [(e["start"], e["end"], e["block"]) for e in v["entries"]]:
+                        err("location list %#x bytes disagree with the description"
+                            % v["loclist"])
+                except ValueError as x:
+                    err("location list %#x: %s" % (v["loclist"], x))
+    if pos != len(loc):
+        err(".debug_loc has %d bytes, lists end at %d" % (len(loc), pos))
 
 
 def depth_of(d):
@@ -253,8 +473,61 @@ Q_ABBREV = ('raw unit (|U| U abbrev (|B| "A %( U offset dec %) %( B offset dec %
             ' %( [B entry (|X| [X ?haschildren] length)] %)"))')
 
 
+# every expression-valued attribute: for each element (the one expression, or each entry of
+# a location list) its address range and per operation the offset and the opcode number
+Q_LOC = ('raw entry (|D| D attribute ?((label == DW_AT_location) || (label == DW_AT_frame_base)'
+         ' || (label == DW_AT_data_member_location)) ?((form == DW_FORM_block1)'
+         ' || (form == DW_FORM_exprloc) || (form == DW_FORM_sec_offset) || (form == DW_FORM_data4))'
+         ' (|A| A value (|L| "L %( D offset dec %) %( A label value dec %)'
+         ' %( L address low value dec %) %( L address high value dec %) %( L length %)'
+         ' %( [L elem offset dec] %) %( [L elem label value dec] %)")))')
+# the query of the task statement: must run without error on every file
+Q_LOC2 = 'entry attribute ?AT_location value elem (offset, label)'
+# the default rendering: one line "START..END:[...]" per element
+Q_LOC3 = 'raw entry attribute ?AT_location value'
+
+
 def lst(xs):
     return "[" + ", ".join(str(x) for x in xs) + "]"
+
+
+def is_location(a):
+    v = a["value"]
+    return isinstance(v, dict) and ("ops2" in v or "loclist" in v)
+
+
+def check_dwgrep_locations(dwgrep, path, desc, err):
+    exp, exp3 = [], []
+    nloc = 0
+    for u in desc["units"]:
+        for d in preorder(u["root"]):
+            for a in d["attrs"]:
+                if not is_location(a):
+                    continue
+                if a["form"] == F["block1"] and u["version"] >= 4:
+                    return      # v4_block_locations: libdw refuses those, nothing to compare
+                if a["name"] == DW_AT["location"]:
+                    nloc += 1
+                for e in location_exprs(a["value"]):
+                    lo, hi = (e["start"], e["end"]) if "loclist" in a["value"] else (0, FO.M64)
+                    exp.append("L %d %d %d %d %d %s %s" % (
+                        d["offset"], a["name"], lo, hi, len(e["ops2"]),
+                        lst(o["offset"] for o in e["ops2"]), lst(o["op"] for o in e["ops2"])))
+                    if a["name"] == DW_AT["location"]:
+                        exp3.append("%s..%#x:" % (("%#x" % lo) if lo else "0", hi))
+    rc, out, se = run([dwgrep, path, "-e", Q_LOC])
+    got = out.split("\n")[:-1]
+    if got != exp or rc != (0 if exp else 1) or se.strip():
+        err("dwgrep locations differ (rc %d): got %d exp %d lines; first diff %s; %s" % (
+            rc, len(got), len(exp), first_diff(got, exp), se.strip()[:300]))
+    rc, out, se = run([dwgrep, path, "-e", Q_LOC2])
+    if rc not in (0, 1) or se.strip():
+        err("dwgrep %r fails (rc %d): %s" % (Q_LOC2, rc, se.strip()[:300]))
+    rc, out, se = run([dwgrep, path, "-e", Q_LOC3])
+    got = [re.match(r"^[^:]*:", l).group(0) if ":" in l else l for l in out.split("\n")[:-1]]
+    if got != exp3 or rc != (0 if exp3 else 1) or se.strip():
+        err("dwgrep location ranges differ (rc %d): got %d exp %d lines; first diff %s; %s" % (
+            rc, len(got), len(exp3), first_diff(got, exp3), se.strip()[:300]))
 
 
 def check_dwgrep(dwgrep, path, desc, err):
@@ -326,6 +599,7 @@ def check_dwgrep(dwgrep, path, desc, err):
     if got != exp or rc != 0:
         err("dwgrep abbreviation listing differs (rc %d): first diff %s; %s" % (
             rc, first_diff(got, exp), se.strip()[:300]))
+    check_dwgrep_locations(dwgrep, path, desc, err)
 
 
 def first_diff(got, exp):
@@ -346,12 +620,27 @@ RE_UNIT = re.compile(r"^0x([0-9a-f]+): Compile Unit: length = 0x([0-9a-f]+), for
                      r"addr_size = 0x([0-9a-f]+) \(next unit at 0x([0-9a-f]+)\)")
 RE_DIE = re.compile(r"^0x([0-9a-f]+):\s+(DW_TAG_\w+|NULL)(?: \[(\d+)\])?( \*)?")
 RE_ATTR = re.compile(r"^\s+(DW_AT_\w+) \[(DW_FORM_\w+)\]\t\((.*)\)$")
+# a location list: "(0x00000000: " and then one line "[0x..., 0x...): expression" per entry
+RE_ATTR_LIST = re.compile(r"^\s+(DW_AT_\w+) \[(DW_FORM_\w+)\]\t\((0x[0-9a-f]{8}): $")
+RE_LIST_ENTRY = re.compile(r"^\s+\[0x([0-9a-f]+), +0x([0-9a-f]+)\): ")
 
 
 def parse_llvm(text):
     units, dies, nulls = [], [], []
     cur = None
+    inlist = None
     for line in text.split("\n"):
+        if inlist is not None:
+            m = RE_LIST_ENTRY.match(line)
+            if m:
+                inlist.append((int(m.group(1), 16), int(m.group(2), 16)))
+                continue
+            inlist = None
+        m = RE_ATTR_LIST.match(line)
+        if m and cur is not None:
+            inlist = []
+            cur["attrs"].append((m.group(1), m.group(2), (int(m.group(3), 16), inlist)))
+            continue
         m = RE_UNIT.match(line)
         if m:
             units.append({"offset": int(m.group(1), 16), "length": int(m.group(2), 16),
@@ -379,6 +668,11 @@ def llvm_value_ok(a, text, unit):
     """Compare the printed value `text` of attribute a with the description where the
     print-out is unambiguous; returns None when OK / not checked, else a message."""
     f, v = a["form"], a["value"]
+    if isinstance(v, dict) and "loclist" in v:
+        want = (v["loclist"], [(e["start"], e["end"]) for e in v["entries"]])
+        return None if text == want else "location list %r vs %r" % (text, want)
+    if isinstance(text, tuple):
+        return "printed as a location list: %r" % (text,)
     if f == F["string"]:
         want = '"%s"' % v["str"]
         return None if text == want else "string %r" % text
@@ -495,9 +789,66 @@ def check_readelf(path, err):
     rc, out, se = run(["readelf", "--debug-dump=info", path])
     # binutils 2.40 follows DW_AT_type across units decoding the *target* unit's ref_addr with
     # the referring unit's version (8 bytes if that one is DWARF 2); its problem, not ours
+    if "Unable to resolve ref_addr form" in se:
+        # ... and having gone astray like that it may run off the section
+        se = "\n".join(l for l in se.split("\n")
+                       if "end of data encountered whilst reading LEB" not in l)
     se = "\n".join(l for l in se.split("\n") if "Unable to resolve ref_addr form" not in l)
     if rc != 0 or se.strip():
         err("readelf complains (rc %d): %s" % (rc, se.strip()[:300]))
+
+
+def described_loclists(desc):
+    return sorted((a["value"]["loclist"], [(e["start"], e["end"]) for e in a["value"]["entries"]])
+                  for u in desc["units"] for d in preorder(u["root"]) for a in d["attrs"]
+                  if isinstance(a["value"], dict) and "loclist" in a["value"])
+
+
+def check_readelf_loc(path, desc, err):
+    """readelf --debug-dump=loc: list offsets, entry offsets in step, absolute ranges."""
+    exp = described_loclists(desc)
+    rc, out, se = run(["readelf", "--debug-dump=loc", path])
+    if rc != 0 or se.strip():
+        err("readelf --debug-dump=loc complains (rc %d): %s" % (rc, se.strip()[:300]))
+    got, cur = [], None
+    for line in out.split("\n"):
+        m = re.match(r"^    ([0-9a-f]{8}) ([0-9a-f]{16}) ([0-9a-f]{16}) \((.*)$", line)
+        if m:
+            off, b, e = int(m.group(1), 16), int(m.group(2), 16), int(m.group(3), 16)
+            if m.group(4).startswith("base address)"):
+                if cur is None:
+                    cur = [off, []]
+                    got.append(cur)
+                continue
+            if cur is None:
+                err("readelf: location list entry outside a list: %s" % line[:80])
+                continue
+            cur[1].append((b, e))
+            continue
+        if re.match(r"^    [0-9a-f]{8} <End of list>", line):
+            cur = None
+    got = sorted((o, es) for o, es in got)
+    if got != exp:
+        err("readelf location lists differ: first diff %s" % first_diff(got, exp))
+
+
+def check_llvm_loc(path, desc, err):
+    """llvm-dwarfdump --debug-loc: list offsets and absolute ranges."""
+    exp = described_loclists(desc)
+    rc, out, se = run(["llvm-dwarfdump-14", "--debug-loc", path])
+    if rc != 0 or "error" in se.lower() or "warning" in se.lower():
+        err("llvm-dwarfdump --debug-loc complains (rc %d): %s" % (rc, se.strip()[:300]))
+    got = []
+    for line in out.split("\n"):
+        m = re.match(r"^0x([0-9a-f]{8}): $", line)
+        if m:
+            got.append((int(m.group(1), 16), []))
+            continue
+        m = RE_LIST_ENTRY.match(line)
+        if m and got:
+            got[-1][1].append((int(m.group(1), 16), int(m.group(2), 16)))
+    if sorted(got) != exp:
+        err("llvm-dwarfdump location lists differ: first diff %s" % first_diff(sorted(got), exp))
 
 
 def check_as(fo, path, err):
@@ -576,10 +927,44 @@ def features(desc, edges, longest):
                 fs.add("backward %s" % fn)
             if a["form"] == F["ref_addr"] and units[uof[d["offset"]]]["version"] == 2:
                 fs.add("8-byte ref_addr (v2)")
-            if "ops" in (a["value"] if isinstance(a["value"], dict) else {}):
-                for op in a["value"]["ops"]:
-                    nm = FO.DW_OP.name(op[0])
-                    fs.add("op:" + re.sub(r"\d+$", "N", nm))
+            if is_location(a):
+                ver = units[uof[d["offset"]]]["version"]
+                v = a["value"]
+                if "loclist" in v:
+                    fs.add("loclist v%d" % ver)
+                    fs.add("loclist/" + fn)
+                    fs.add("loclist of %d" % len(v["entries"]))
+                    rs = [(e["start"], e["end"]) for e in v["entries"]]
+                    if rs != sorted(rs):
+                        fs.add("loclist unsorted")
+                    if any(x[1] == y[0] for x in rs for y in rs):
+                        fs.add("loclist adjacent ranges")
+                    if any(e["end"] == FO.M64 for e in v["entries"]):
+                        fs.add("loclist end 2^64-1")
+                    if any(not e["ops2"] for e in v["entries"]):
+                        fs.add("loclist empty expression")
+                for e in location_exprs(v):
+                    if not e["ops2"]:
+                        fs.add("empty expression")
+                    for o in all_ops2(e["ops2"]):
+                        nm = FO.DW_OP.name(o["op"])
+                        fs.add("op:" + re.sub(r"(?<=lit|reg)\d+$", "N", nm))
+                        for x in o["operands"]:
+                            k = list(x)[0]
+                            fs.add("operand:" + k)
+                            if k in ("u", "s", "addr") and x[k] in (
+                                    0, 1, -1, 127, 128, -128, -129, 1 << 63, FO.M64,
+                                    -(1 << 63), (1 << 63) - 1):
+                                fs.add("operand %s %d" % (k, x[k]))
+                        if o["op"] in (0xa0, 0xf2):
+                            fs.add("implicit_pointer v%d" % ver)
+                            fs.add("implicit_pointer %d-byte reference" % (8 if ver == 2 else 4))
+                            if uof[o["operands"][0]["die"]] != uof[d["offset"]]:
+                                fs.add("implicit_pointer to another unit")
+                        if o["op"] in (0xa8, 0xf7, 0xa9, 0xf9) and o["operands"][0]["curel"] == 0:
+                            fs.add("convert/reinterpret 0")
+                        if any("curel" in x and x["curel"] > 127 for x in o["operands"]):
+                            fs.add("2-byte CU-relative ULEB")
         tn = DW_TAG.name(d["tag"])
         if tn == "enumeration_type":
             fs.add("enum with type" if any(a["name"] == DW_AT["type"] for a in d["attrs"])
@@ -675,6 +1060,28 @@ MUST_COVER = """v2 v3 v4 v5 unit:compile unit:partial shared%abbrev%table severa
 MUST_COVER = [m.replace("%", " ") for m in MUST_COVER]
 
 
+# what the forests made with RICH options must show between them (checked from 30 of them on)
+_RICH_OPS = """deref dup drop over swap rot abs and div minus mod mul neg not or plus shl shr shra
+ xor eq ge gt le lt ne litN regN nop push_object_address form_tls_address call_frame_cfa
+ stack_value GNU_push_tls_address const1u const2u const4u const8u constu pick plus_uconst regx
+ piece deref_size xderef_size const1s const2s const4s const8s consts fbreg bregN bregx bit_piece
+ addr implicit_value entry_value GNU_entry_value implicit_pointer GNU_implicit_pointer const_type
+ GNU_const_type regval_type GNU_regval_type deref_type GNU_deref_type convert GNU_convert
+ reinterpret GNU_reinterpret GNU_parameter_ref""".split()
+MUST_COVER_RICH = ["op:" + o for o in _RICH_OPS] + [
+    "operand:" + k for k in ("u", "s", "addr", "block", "expr", "die", "curel")] + [
+    "operand u 0", "operand u 1", "operand u 127", "operand u 128",
+    "operand u %d" % (1 << 63), "operand u %d" % FO.M64, "operand s 0", "operand s -1",
+    "operand s 127", "operand s 128", "operand s -128", "operand s -129",
+    "operand s %d" % -(1 << 63), "operand s %d" % ((1 << 63) - 1),
+    "loclist v2", "loclist v3", "loclist v4", "loclist/data4", "loclist/sec_offset",
+    "loclist of 1", "loclist of 2", "loclist of 3", "loclist of 4", "loclist unsorted",
+    "loclist adjacent ranges", "implicit_pointer 8-byte reference",
+    "implicit_pointer 4-byte reference", "implicit_pointer to another unit",
+    "convert/reinterpret 0",
+    "2-byte CU-relative ULEB", "location/exprloc", "location/block1"]
+
+
 # ---------------------------------------------------------------------------
 
 VARIANTS = [  # cycled through; most forests use the defaults
@@ -689,12 +1096,23 @@ VARIANTS = [  # cycled through; most forests use the defaults
     {"share_abbrev": 1.0, "odd_codes": 1.0},
     {"const_forms": ("sdata", "udata"), "v4_block_locations": True, "max_dies": 12, "max_depth": 2},
 ]
+# every other round through VARIANTS (the first, third, ...) the non-default ones are generated
+# with these on top
+RICH = {"rich_ops": 0.6, "loclists": 0.5}
+
+
+def options_of(i):
+    opts = dict(VARIANTS[i % len(VARIANTS)])
+    if opts and (i // len(VARIANTS)) % 2 == 0:
+        opts.update(RICH)
+    return opts
 
 
 def check_one(seed, i, dwgrep, work, have_llvm, have_readelf):
     """Generate forest number i of `seed`, write it, run all checks.
     Returns (opts, errs, desc, n units, n DIEs, went through `as`, feature set or None)."""
-    opts = VARIANTS[i % len(VARIANTS)]
+    opts = options_of(i)
+    rich = "rich_ops" in opts
     rng = random.Random("forest-selftest:%d:%d" % (seed, i))
     fo = FO.ForestGen(rng, **opts).generate()
     desc = fo.describe()
@@ -718,13 +1136,15 @@ def check_one(seed, i, dwgrep, work, have_llvm, have_readelf):
         check_dwgrep(dwgrep, path, desc, err)
         if have_llvm:
             check_llvm(path, desc, err)
+            check_llvm_loc(path, desc, err)
         if have_readelf:
             check_readelf(path, err)
+            check_readelf_loc(path, desc, err)
         if i % 10 == 0:     # determinism: the same rng state gives the same forest
             rng2 = random.Random("forest-selftest:%d:%d" % (seed, i))
             if FO.ForestGen(rng2, **opts).generate().describe() != desc:
                 err("generation is not a function of the rng")
-        feats = features(desc, edges, longest) if not opts else None
+        feats = features(desc, edges, longest) if not opts or rich else None
         if errs:
             keep = os.path.join(SCRATCH, "bad-%d-%d.o" % (seed, i))
             if os.path.exists(path):
@@ -737,11 +1157,46 @@ def check_one(seed, i, dwgrep, work, have_llvm, have_readelf):
     return opts, errs, len(desc["units"]), len(die_index(desc)), via_as, feats
 
 
+def parse_args(argv):
+    """[-v] [--seed N] [--count N] [seed] [count]  ->  (verbose, seed, count) or None (--help)."""
+    verbose, seed, count, pos = False, None, None, []
+    args = list(argv[1:])
+    while args:
+        a = args.pop(0)
+        if a in ("-h", "--help"):
+            return None
+        if a == "-v":
+            verbose = True
+        elif a in ("--seed", "--count"):
+            if not args:
+                raise SystemExit("%s needs a number" % a)
+            if a == "--seed":
+                seed = int(args.pop(0))
+            else:
+                count = int(args.pop(0))
+        elif a.startswith("--seed=") or a.startswith("--count="):
+            k, v = a.split("=", 1)
+            if k == "--seed":
+                seed = int(v)
+            else:
+                count = int(v)
+        else:
+            pos.append(int(a))
+    if seed is None:
+        seed = pos.pop(0) if pos else 0
+    if count is None:
+        count = pos.pop(0) if pos else 50
+    return verbose, seed, count
+
+
 def main(argv):
-    verbose = "-v" in argv
-    argv = [a for a in argv if a != "-v"]
-    seed = int(argv[1]) if len(argv) > 1 else 0
-    count = int(argv[2]) if len(argv) > 2 else 50
+    parsed = parse_args(argv)
+    if parsed is None:
+        print(__doc__)
+        print("options: -v (list the features seen), --seed N (default 0), --count N (default 50);\n"
+              "environment: DWGREP (the dwgrep binary), FOREST_SCRATCH, FOREST_JOBS")
+        return 0
+    verbose, seed, count = parsed
     dwgrep = find_dwgrep()
     if dwgrep is None:
         print("no dwgrep binary found (set DWGREP)")
@@ -751,8 +1206,9 @@ def main(argv):
     os.makedirs(SCRATCH, exist_ok=True)
     work = os.path.join(SCRATCH, "selftest-%d-%d" % (os.getpid(), seed))
     os.makedirs(work, exist_ok=True)
-    bad = nerr = ndies = nunits = nas = 0
+    bad = nerr = ndies = nunits = nas = nrich = 0
     cover = {}
+    cover_rich = {}
     jobs = int(os.environ.get("FOREST_JOBS", min(8, os.cpu_count() or 1)))
     try:
         with concurrent.futures.ThreadPoolExecutor(jobs) as ex:
@@ -763,8 +1219,13 @@ def main(argv):
                 nunits += nu
                 ndies += nd
                 nas += via_as
-                for f in feats or ():
-                    cover[f] = cover.get(f, 0) + 1
+                if "rich_ops" in opts:
+                    nrich += 1
+                    for f in feats or ():
+                        cover_rich[f] = cover_rich.get(f, 0) + 1
+                else:
+                    for f in feats or ():
+                        cover[f] = cover.get(f, 0) + 1
                 if errs:
                     bad += 1
                     nerr += len(errs)
@@ -774,9 +1235,10 @@ def main(argv):
                         print("   " + e[:1500])
     finally:
         shutil.rmtree(work, ignore_errors=True)
-    ndefault = sum(1 for i in range(count) if not VARIANTS[i % len(VARIANTS)])
+    ndefault = sum(1 for i in range(count) if not options_of(i))
     # rare features need a fair number of default-option forests to show up
     missing = [m for m in MUST_COVER if m not in cover] if ndefault >= 40 else []
+    missing_rich = [m for m in MUST_COVER_RICH if m not in cover_rich] if nrich >= 30 else []
     print("forest selftest: seed %d, %d forests (%d units, %d DIEs; %d via `as`), dwgrep %s%s%s"
           % (seed, count, nunits, ndies, nas, dwgrep,
              "" if have_llvm else ", NO llvm-dwarfdump-14", "" if have_readelf else ", NO readelf"))
@@ -786,8 +1248,14 @@ def main(argv):
     print("   features seen in %d default-option forests: %d distinct; required ones missing: %s"
           % (ndefault, len(cover), ", ".join(missing) if missing else
              "none" if ndefault >= 40 else "(not checked, needs count >= 100)"))
+    if verbose:
+        for k in sorted(cover_rich):
+            print("   %4d  rich: %s" % (cover_rich[k], k))
+    print("   features seen in %d forests with %r: %d distinct; required ones missing: %s"
+          % (nrich, RICH, len(cover_rich), ", ".join(missing_rich) if missing_rich else
+             "none" if nrich >= 30 else "(not checked, needs count >= 100)"))
     print("   disagreeing forests: %d (%d messages)" % (bad, nerr))
-    if bad or missing:
+    if bad or missing or missing_rich:
         print("FAIL")
         return 1
     print("OK")
